@@ -1,4 +1,4 @@
 SPECIFICATION Spec
-CONSTANTS Readers = {1} Writers = {2} Rounds = 1 Grace = 2 MaxT = 3 AllowShutdown = FALSE AllowParentCancel = TRUE GraceFromAdmission = FALSE ErrButAdmitted = FALSE DeleteOnEveryRelease = FALSE AutoReleaseOnCtxEnd = TRUE CancelAfterDone = FALSE
+CONSTANTS Readers = {1} Writers = {2} Rounds = 1 Grace = 2 MaxT = 3 AllowShutdown = FALSE AllowParentCancel = TRUE GraceFromAdmission = FALSE ErrButAdmitted = FALSE DeleteOnEveryRelease = FALSE AutoReleaseOnCtxEnd = TRUE CancelAfterDone = FALSE NoCtxOnSend = FALSE
 INVARIANTS Contract
 CHECK_DEADLOCK FALSE
